@@ -307,16 +307,24 @@ class Lexer(ITokenizer):
 		"""
 		found_pair = [pair for pair in self._definition.quote if source.startswith(pair['open'], begin)]
 		pair = found_pair[0]
-		end = begin + len(pair['open'])
+		body = begin + len(pair['open'])
+		end = body
 		while end < len(source):
 			index = source.find(pair['close'], end)
 			if index == -1:
 				break
 
-			prev = max(end, index - 1)
+			# XXX 終了文字の直前のバックスラッシュが奇数個の場合のみエスケープ済みと見做す (偶数個はバックスラッシュ自体のエスケープ)
+			escapes = 0
+			while index - escapes > body and source[index - escapes - 1] == '\\':
+				escapes += 1
+
+			if escapes % 2 == 1:
+				end = index + 1
+				continue
+
 			end = index + len(pair['close'])
-			if not (source[prev] == '\\'):
-				break
+			break
 
 		value = source[begin:end]
 		token_type = TokenTypes.Regexp if value[0] == '/' else TokenTypes.String
